@@ -26,8 +26,16 @@ import (
 	"verif/sim/instrument"
 )
 
+// repoDir is always /repo for registered checks. VERIF_REPO points a triage run at a scratch worktree (used
+// while a long run on /repo is in progress); such a run writes its evidence under evidence-triage/ and says so.
+var repoDir = func() string {
+	if d := os.Getenv("VERIF_REPO"); d != "" {
+		return d
+	}
+	return "/repo"
+}()
+
 const (
-	repoDir = "/repo"
 	goBin   = "/opt/veriftools/go1.26.8/bin/go"
 	modPath = "github.com/VKCOM/tl"
 )
@@ -682,8 +690,13 @@ func writeEvidence(p *property, tier string, seed uint64, agg *aggregate, wall f
 		"coverage": cov, "assumptions": p.assumptions, "wall_s": wall, "violations": violations,
 	}
 	b, _ := json.MarshalIndent(ev, "", " ")
-	_ = os.MkdirAll(filepath.Join(verifDir, "evidence"), 0o755)
-	if err := os.WriteFile(filepath.Join(verifDir, "evidence", p.id+".json"), b, 0o644); err != nil {
+	evDir := "evidence"
+	if repoDir != "/repo" {
+		evDir = "evidence-triage"
+		fmt.Fprintf(os.Stderr, "tlsim: TRIAGE run against %s: evidence goes to %s/, not evidence/\n", repoDir, evDir)
+	}
+	_ = os.MkdirAll(filepath.Join(verifDir, evDir), 0o755)
+	if err := os.WriteFile(filepath.Join(verifDir, evDir, p.id+".json"), b, 0o644); err != nil {
 		die(2, "write evidence: %v", err)
 	}
 }
